@@ -1006,7 +1006,8 @@ impl<'a> Searcher<'a> {
 
     /// A leading minus negates a numeric column or function value.
     fn apply_sign(value: Variant, minus: bool) -> Variant {
-        if !minus {
+        // (a value that is absent stays absent: it is not the number 0)
+        if !minus || value.to_string().is_empty() {
             return value;
         }
 
